@@ -46,11 +46,15 @@ Definition name_char_ok0 (c : chr) : bool :=
 Definition name_ok0 (x : str) : bool :=
   forallb name_char_ok0 x && match first_alnum x with Some c => xid_start c | None => false end.
 
-Example name_ok0_insufficient_snake :
-  name_ok0 [570] = true /\ ident_chars_ok (to_snake_case [570]) = false.
+(* history: while Sigma was the bare range U+00A0..U+052F, 22 of its letters had a case image
+   outside it (U+023A lowercases to U+2C65, U+0250 uppercases to U+2C6F), the model classified the
+   image as "other" and these two evaluated to (true, false).  The table is now closed under the
+   two case mappings (case_closed_sigma below), so the counterexamples are gone. *)
+Example name_ok0_sufficient_snake :
+  name_ok0 [570] = true /\ ident_chars_ok (to_snake_case [570]) = true.
 Proof. vm_compute. split; reflexivity. Qed.
-Example name_ok0_insufficient_pascal :
-  name_ok0 [592] = true /\ ident_chars_ok (to_pascal_case [592]) = false.
+Example name_ok0_sufficient_pascal :
+  name_ok0 [592] = true /\ ident_chars_ok (to_pascal_case [592]) = true.
 Proof. vm_compute. split; reflexivity. Qed.
 
 Definition hd_ok (P : chr -> bool) (x : str) : bool :=
@@ -62,21 +66,49 @@ Definition has_us (x : str) : bool := existsb (N.eqb us) x.
 (* 1. finite sweeps over Sigma                                             *)
 (* ====================================================================== *)
 
-Definition sigma_points : list chr := map N.of_nat (seq 0 128 ++ seq 160 1168).
+Fixpoint tbl_keys (t : tbl) : list chr :=
+  match t with TLeaf => [] | TNode l k _ r => tbl_keys l ++ k :: tbl_keys r end.
+Definition sigma_points : list chr := map N.of_nat (seq 0 128) ++ tbl_keys unicode_table.
+
+Lemma tbl_find_keys t c i : tbl_find t c = Some i -> In c (tbl_keys t).
+Proof.
+  induction t as [|l IHl k v r IHr]; cbn [tbl_find tbl_keys]; [discriminate|].
+  destruct (N.ltb_spec c k) as [H1|H1].
+  - intros H. apply in_or_app. left. now apply IHl.
+  - destruct (N.ltb_spec k c) as [H2|H2].
+    + intros H. apply in_or_app. right. right. now apply IHr.
+    + intros _. apply in_or_app. right. left. lia.
+Qed.
 
 Lemma in_sigma_points c : in_sigma c = true -> In c sigma_points.
 Proof.
-  unfold in_sigma, is_ascii, sigma_lo, sigma_hi, sigma_points. intros H.
-  rewrite <- (N2Nat.id c). apply in_map. apply in_app_iff.
-  apply orb_true_iff in H. destruct H as [H|H].
-  - left. apply in_seq. apply N.ltb_lt in H. lia.
-  - right. apply andb_true_iff in H. destruct H as [H1 H2].
-    apply N.leb_le in H1. apply N.leb_le in H2. apply in_seq. lia.
+  unfold in_sigma, is_ascii, sigma_points. intros H. apply in_or_app.
+  destruct (N.ltb_spec c 128) as [Hc|Hc].
+  - left. apply in_map_iff. exists (N.to_nat c). split; [apply N2Nat.id|]. apply in_seq. lia.
+  - right. cbn [orb] in H. destruct (tbl_find unicode_table c) as [i|] eqn:E; [|discriminate].
+    eapply tbl_find_keys; exact E.
 Qed.
 
 Lemma sweep (P : chr -> bool) :
   forallb P sigma_points = true -> forall c, in_sigma c = true -> P c = true.
 Proof. intros H c Hc. rewrite forallb_forall in H. apply H, in_sigma_points, Hc. Qed.
+
+(* Sigma is closed under the two case mappings *)
+Lemma sweep_case_closed : forallb case_closed sigma_points = true.
+Proof. vm_compute. reflexivity. Qed.
+Lemma case_closed_sigma c : in_sigma c = true -> case_closed c = true.
+Proof. intros H. pose proof sweep_case_closed as S. rewrite forallb_forall in S. apply S, in_sigma_points, H. Qed.
+Lemma name_char_ok0_ok c : name_char_ok0 c = name_char_ok c.
+Proof.
+  unfold name_char_ok0, name_char_ok. destruct (in_sigma c) eqn:E; [|reflexivity].
+  now rewrite (case_closed_sigma c E).
+Qed.
+Lemma name_ok0_ok x : name_ok0 x = name_ok x.
+Proof.
+  unfold name_ok0, name_ok. f_equal.
+  induction x as [|c x IH]; [reflexivity|]. cbn [forallb]. now rewrite IH, name_char_ok0_ok.
+Qed.
+
 
 Definition fact_upper (c : chr) : bool := implb (is_uppercase c) (is_alphanumeric c).
 Definition fact_alnum (c : chr) : bool :=
